@@ -333,7 +333,7 @@ var rightCA, otherCA *authority
 
 var labelPool = []string{"a", "b", "www", "mail", "api", "example", "test", "mosn", "com", "org", "io", "x1", "svc"}
 var alpnCfgPool = []string{"", "", "h2", "http/1.1", "sofa", "h2,http/1.1", "http/1.1,h2", "h2,sofa", "h2,http/1.1,sofa", "h2,bogus", "bogus", ",h2", "h2,"}
-var protoPool = []string{"h2", "http/1.1", "sofa", "spdy/3", "foo", "h3"}
+var protoPool = []string{"h2", "http/1.1", "sofa", "spdy/3", "bogus", "h3", "h2", "http/1.1"}
 
 type gen struct {
 	r *hx.Rng
@@ -1008,13 +1008,13 @@ func Run(c *hx.Ctx) {
 		}
 		return 0
 	}
-	for i := 0; i < c.N(500, 12000); i++ {
+	for i := 0; i < c.N(1500, 12000); i++ {
 		runSelect(c, g, l, false, modeOf(i))
 	}
-	for i := 0; i < c.N(400, 6000); i++ {
+	for i := 0; i < c.N(1000, 6000); i++ {
 		runMatch(c, g, modeOf(i))
 	}
-	for i := 0; i < c.N(100, 1700); i++ {
+	for i := 0; i < c.N(400, 1700); i++ {
 		runSelect(c, g, l, true, modeOf(i))
 	}
 }
